@@ -190,7 +190,10 @@ def shard_mutations(ctx, shard):
 OPEN_CLOSE = [('{', '}'), ('\\x{', '}'), ('\\x[', ']'), ('\\begin{e}', '\\end{e}'),
               ('\\begin{itemize}\\item ', '\\end{itemize}'), ('$\\text{', '}$'), ('\\begin{equation}', '\\end{equation}'),
               ('\\begin{align}\\text{', '}\\end{align}'), ('\\item[', ']'), ('\\[', '\\]'), ('\\textbf{', '}'),
-              ('\\newcommand{\\f}{', '}'), ('\\begin{verbatim}', '\\end{verbatim}')]
+              ('\\newcommand{\\f}{', '}'), ('\\begin{verbatim}', '\\end{verbatim}'),
+              # an \\end whose name group itself holds an environment (mismatched at every level)
+              ('\\begin{a}\\end{', '}'), ('\\x{\\begin{e}\\item[', ']\\end{e}}'), ('\\(', '\\)'), ('$$\\mbox{', '}$$'),
+              ('\\x[', ']{a}'), ('\\left(\\frac{', '}{b}')]
 
 
 def shard_chains(ctx, shard):
@@ -218,6 +221,21 @@ def shard_chains(ctx, shard):
             res.case(s, True, sample={'src': s[:300], 'outcomes': outs, 'depth': len(chain)},
                      classes=['chain:' + kind, 'chain-depth>=%d' % (len(chain) // 10 * 10), 'out:%s/%s' % tuple(outs)])
 
+    # homogeneous chains: every opener alone at depths up to 40, closed / truncated / one closer short
+    if idx < len(OPEN_CLOSE) or True:
+        for i, (o, c) in enumerate(OPEN_CLOSE):
+            if i % 16 != idx:
+                continue
+            for depth in (10, 20, 30, 40):
+                for s, kind in ((o * depth + 'a' + c * depth, 'closed'), (o * depth, 'truncated'),
+                                (o * depth + 'a' + c * (depth - 1), 'one-closer-removed'), (o * depth + c * (depth // 2), 'half-closed')):
+                    try:
+                        outs = check_string(s, 'homogeneous-chain:' + kind)
+                    except H.Violation as v:
+                        _record(res, seen, v)
+                        continue
+                    res.case(s, True, sample={'src': s[:120] + '...', 'outcomes': outs, 'depth': depth},
+                             classes=['chain:homogeneous', 'chain-depth>=%d' % depth, 'out:%s/%s' % tuple(outs)])
     H.hyp_search(strat, prop, n, ctx.seed * 100 + idx, res, known=ctx.known)
     return res
 
